@@ -31,6 +31,11 @@ def run(ctx) -> None:
     r5_operands_not_consumed(ctx)
     r6_format_of_cached_pipeline(ctx)
     r7_finalizers_get_the_list(ctx)
+    # every emitted query went through finalize_query (output format + post-processing items): the per-rule converters
+    # return the finalised list, whatever they store for embedding (shared with C10.R7)
+    from . import c10
+    from ..util import run_as
+    run_as(ctx, c10.r7_subquery_finalisation, "C10.R7", "C14.R8", "post-processing reaches every emitted query: ")
 
 
 def _dominates(prog, fi: FuncInfo, first: list[ast.AST], then: list[ast.AST]) -> bool:
